@@ -250,4 +250,11 @@ def rb_binding_agreement(ctx: Ctx) -> None:
     binding_agreement(ctx)
 
 
-RULES = [r1_framing, r2_tiling_loop, r3_no_wrap_and_copier, r4_reserved_offset, rb_binding_agreement]
+def rm_no_process_lifetime_results(ctx: Ctx) -> None:
+    """memoising decorators, module-level stores and mutable defaults on this property's mechanism (shared rule, caches.py)"""
+    from ..caches import state_rule
+
+    state_rule(ctx)
+
+
+RULES = [r1_framing, r2_tiling_loop, r3_no_wrap_and_copier, r4_reserved_offset, rb_binding_agreement, rm_no_process_lifetime_results]
